@@ -63,6 +63,7 @@ EXPR_FORMERS = [
     ('element', '[{E}, 2][0]', None, same),
     ('index', 'ga[{E}]', None, same),
     ('arith', '-{E} + 1', None, same),
+    ('cast', '(({E} is byte) is int)', None, same),
     ('spec_left', '({E} ?? 1)', Y, spec),
     ('spec_right', '(1 ?? {E})', Y, spec),
 ]
